@@ -53,7 +53,7 @@ fn main() {
     }
     let quick = ctx.quick();
     // --- leg 0 (E2): the real Uplinks scheduler alone, every operation history to a depth bound
-    asys::uplinks::run(&ctx, "uplinks-bfs", if quick { 6 } else { 8 }, |_| true);
+    asys::uplinks::run(&ctx, "uplinks-bfs", if quick { 7 } else { 8 }, |_| true);
     let p = pool();
     // --- leg 1: full grid, d <= 1
     let mut cfgs = vec![];
